@@ -100,6 +100,10 @@ def compare_impl_model(imp, mod):
     return None
 
 
+def norm_nl(t):
+    return t.replace("\r\n", "\n").replace("\r", "\n")
+
+
 def has_table(stdout):
     return "Transactions for" in stdout or "Aggregate Gains" in stdout or " | " in stdout
 
@@ -113,7 +117,8 @@ def cli_pass(res, st, rng, generated_bad, samples):
     good_csv = VALID_CSV % "FOO"
     bad_lists = [["FOO"], ["FOO:1"], ["FOO:1:2:3"], [":1:2"], [" :1:2"], ["FOO:x:2"], ["FOO:1:y"], ["FOO:-1:2"], ["FOO:1:-2"], ["FOO::"],
                  ["FOO:1e3:1"], ["FOO:10:100", "BAR:1"], ["FOO:10:100", "FOO:-1:1", "BAR"], [""], ["FOO: 10:100"]]
-    usable = [l for l in generated_bad if all("\x00" not in s and not s.startswith("-") for s in l)]
+    # argv cannot carry NUL; "\r" would be rewritten by the text-mode pipe of run_acb_cli
+    usable = [l for l in generated_bad if all("\x00" not in s and "\r" not in s for s in l)]
     rng.shuffle(usable)
     bad_lists += usable[:8]
     situations = [("valid-csv", [good_csv], []), ("invalid-csv", [INVALID_CSV], []), ("missing-file", [], ["/nonexistent-dir/none.csv"])]
@@ -131,7 +136,7 @@ def cli_pass(res, st, rng, generated_bad, samples):
                 what = "no 'Error parsing --symbol-base' on stderr (stderr: %r)" % err[:300]
             elif has_table(out):
                 what = "a table was printed"
-            elif err.strip() != "Error parsing --symbol-base: " + orc[2].strip():
+            elif norm_nl(err).strip() != norm_nl("Error parsing --symbol-base: " + orc[2]).strip():
                 # something else was reported as well: the files were looked at before the rejection,
                 # or the message names another specification
                 if ("No such file" in err or "csv" in err.lower().replace("--symbol-base", "")) and name != "valid-csv":
